@@ -167,6 +167,23 @@ def step_rule(ctx, rep, fn, direction, keylen, method_of=None):
     env = {strip(phi_idx): "idx", strip(phi_prev): "prev", in_term: "in", ("param", 2): "key"}
     back_idx = [v for p, v in ins_idx.items() if p in loop]
     back_prev = [v for p, v in ins_prev.items() if p in loop]
+    # the key position wrapped in a one-field private newtype (`KeyIndex(u8)`): the position is that field
+    pty = body.local_ty(3)
+    pty = pty.peel_refs() if pty is not None else None
+    if pty is not None and pty.k == "adt" and pty.path in ctx.fb.adts:
+        fs_ = ctx.fb.adt_fields(pty.path) or []
+        if len(fs_) == 1 and ctx.fb.ty(fs_[0]["ty"]).s == "u8":
+            env = {("field", strip(phi_idx), 0): "idx", strip(phi_prev): "prev", in_term: "in", ("param", 2): "key"}
+            nb = []
+            for v in back_idx:
+                v = strip(v)
+                if v[0] == "upd" and v[1] == strip(phi_idx) and v[2] == ("f", 0):
+                    nb.append(v[3])
+                elif v[0] == "agg" and v[1] == "adt" and v[2] == pty.path and len(v[4]) == 1:
+                    nb.append(v[4][0])
+                else:
+                    nb.append(v)
+            back_idx = nb
     if len(out_terms) != 1 or len(back_idx) != 1 or len(back_prev) != 1 or wb is None:
         rep.violation("step", fn, "shape", "per-byte step is not one store to the byte, one index update, one previous-value update (%d/%d/%d)" % (len(out_terms), len(back_idx), len(back_prev)), body.loc())
         return
@@ -251,6 +268,17 @@ def _step_rule_keystream(ctx, rep, fn, direction, keylen, se, tr, prev):
 
     good_idx = False
     r3 = util.numnorm(e3) if e3 is not None else ("?",)
+    # `% session_key.len()`: the key parameter is an array (or a reference to one) of the key length
+    kty = body.local_ty(2)
+    kty = kty.peel_refs() if kty is not None else None
+    if kty is not None and kty.k == "array" and kty.len == keylen:
+        def _klen(x):
+            if x[0] == "len" and strip(x[1]) == ("param", 2):
+                return ("int", keylen, "usize")
+            if util.is_call(x) and x[1].endswith("<impl [T]>::len") and len(x[2]) == 1 and strip(x[2][0]) == ("param", 2):
+                return ("int", keylen, "usize")
+            return None
+        r3 = util.numnorm(util.map_term(r3, _klen))
     idx0 = strip(idx_root)
 
     def widened_idx(x):
@@ -476,7 +504,7 @@ def state_census(ctx, rep, half, key_role_ctor, allowed_writers, state_field_cou
     site_fns = sorted({w[0] for w in aggs})
     rep.check(bool(aggs), "state-writers", half, "constructed-only-in-new", "constructed in %s" % site_fns, "%s is never constructed" % half)
     tys = [fb.ty(f["ty"]) for f in fb.adt_fields(half)]
-    state_ix = [i for i, t in enumerate(tys) if t.k == "int"]
+    state_ix = [i for i, t in enumerate(tys) if util.scalar_kind(fb, t) == "int"]
     bad_sites = []
     n_seen = 0
     for fn_ in site_fns:
@@ -487,7 +515,7 @@ def state_census(ctx, rep, half, key_role_ctor, allowed_writers, state_field_cou
         vals = [v for (bi, si), (loc, v) in se.assigns.items() if v[0] == "agg" and v[1] == "adt" and v[2] == half]
         for v in vals:
             n_seen += 1
-            if not (len(state_ix) == state_field_count and len(v[4]) == state_field_count + 1 and all(strip(v[4][i])[:2] == ("int", 0) for i in state_ix)):
+            if not (len(state_ix) == state_field_count and len(v[4]) == state_field_count + 1 and all(util.unwrap_newtype_value(fb, v[4][i])[:2] == ("int", 0) for i in state_ix)):
                 bad_sites.append((fn_, show(v, maxdepth=2)))
     rep.check(n_seen > 0 and not bad_sites, "initial-state", key_role_ctor, "zero", "index = 0, previous value = 0 at every construction site %s" % site_fns, "initial cipher state is not (index 0, previous 0): %s" % bad_sites[:2])
     # derived PartialEq covers all fields (observation point of the property)
